@@ -89,7 +89,7 @@ fn val_id(v: &[u8]) -> Option<u64> {
 
 /// Run the programs concurrently and return the recorded history (or an error description).
 fn execute(case: &ConcCase, check_lin: bool) -> Result<(Vec<Rec>, ConcStats), String> {
-    raindb::verif::set_level_base_bytes(crate::engine::level_base_for(&case.cfg));
+    crate::engine::set_level_limits(crate::engine::level_code_for(&case.cfg));
     let fs = Arc::new(MemFs::new(false));
     let ffs = Arc::new(crate::faultfs::FaultFs::new(fs.clone()));
     let fsd: Arc<dyn raindb::fs::FileSystem> = ffs.clone();
